@@ -358,7 +358,10 @@ struct World : ob::StateValidityChecker
             return false;
         x = std::min(x, 3);
         y = std::min(y, 3);
-        return map[y][x] == '.';
+        // validity is collision-freedom AND a limit that has nothing to do with obstacles (x <= 3.4), while clearance() below only measures
+        // the distance to obstacles: invalid states with a large clearance exist, so a sampler that ranks candidates by clearance
+        // has to check their validity separately
+        return map[y][x] == '.' && c[0] <= 3.4;
     }
     double clearance(const ob::State *s) const override
     {
